@@ -34,9 +34,10 @@ class StopMain(Exception):
     pass
 
 
-def run_main(K, W, settings, code, lock_outcomes, cpus=None, may_fail=None, base_input=None, world=None, outputs=None):
+def run_main(K, W, settings, code, lock_outcomes, cpus=None, may_fail=None, base_input=None, world=None, outputs=None, discrete=False):
     mcworld.Gen.seed_pairs = []
     w = world or mcworld.MCWorld(OUTPUTS, [True, True], False)
+    w.discrete = discrete
     if base_input is not None:
         w.fs['/w/base_input.txt'] = base_input
     w.fs['/w/settings.txt'] = (''.join('INPUT, ' + ', '.join(s) + '\n' for s in settings) + ''.join(f'OUTPUT, {o}\n' for o in (outputs or OUTPUTS))
@@ -262,8 +263,9 @@ def replay_real_main(settings, iterations, uuid_ints=None, count_attempts=False)
                 MC.main(command_line_args=[os.path.join(gx.SRC, 'hip_ra_x', 'hip_ra_x.py'), inp, st, out])
             except Exception as e:   # the summary may fail on degenerate data; the rows are what matters
                 err = repr(e)[:120]
-        rows = [ln for ln in open(out).read().splitlines()[1:] if '(' in ln and ':' in ln]
-        vecs = [ln[ln.index('('):] for ln in rows]
+        import re
+        rows = [ln for ln in open(out).read().splitlines()[1:] if re.search(r'\([^()]*:[^()]*;\)\s*$', ln)]      # iteration rows end with '(Input:value;...)'; the summary block does not
+        vecs = [ln[ln.rindex('('):] for ln in rows]
         attempts = len(open(counter).read().splitlines()) if count_attempts and os.path.exists(counter) else None
         return {'iterations': iterations, 'rows': len(rows), 'distinct_sample_vectors': len(set(vecs)), 'simulated runs attempted': attempts, 'summary_error': err,
                 'example_rows': vecs[:3]}
@@ -351,6 +353,7 @@ def units(tier):
     us += [{'harness': 'main', 'K': K, 'W': 1, 'settings': 0, 'lock_outcomes': False, 'code': 'GEOPHIRESv3.py', 'cpus': cp, 'may_fail': mf} for (K, cp, mf) in MANY[tier]]
     us.append({'harness': 'main', 'history': True, 'lock_outcomes': False})
     us += [{'harness': 'main', 'requests': H, 'lock_outcomes': False} for H in ((2,) if tier == 'quick' else (2, 3))]
+    us.append({'harness': 'main', 'K': 2 if tier == 'quick' else 3, 'W': 1, 'settings': 0, 'lock_outcomes': False, 'code': 'GEOPHIRESv3.py', 'discrete': True, 'may_fail': 0})
     # an OUTPUT named twice in the settings file
     us.append({'harness': 'main', 'K': 2, 'W': 1, 'settings': 0, 'lock_outcomes': False, 'code': 'GEOPHIRESv3.py', 'outputs': ['Out A', 'Out B', 'Out A']})
     return us
@@ -437,6 +440,14 @@ def run_requests_unit(unit):
     yield log.result()
 
 
+def replay_discrete_rows():
+    """real main(), real pool, real HIP-RA-X: one binomial input with four possible values, 12 iterations (equal sample vectors are certain)."""
+    if 'discrete' not in _REPLAY:
+        r = replay_real_main([['Reservoir Porosity', 'binomial', '3', '0.5']], 12)
+        _REPLAY['discrete'] = (r['rows'] < r['iterations'], r)
+    return _REPLAY['discrete']
+
+
 def replay_duplicate_outputs():
     """real main(), real pool, real HIP-RA-X with an OUTPUT named twice in the settings file."""
     if 'dupout' in _REPLAY:
@@ -505,6 +516,12 @@ def run_unit(unit):
     outs = unit.get('outputs') or OUTPUTS
     if unit.get('outputs'):
         cfg['OUTPUT lines of the settings file'] = outs
+    if unit.get('discrete'):
+        # all inputs discrete: two iterations may legitimately draw the same vector, and the (deterministic) simulator then prints the same
+        # figures: the two rows are textually identical and both belong in the file
+        settings = [['Reservoir Life Cycle', 'binomial', '1', '0.5']]
+        cfg['settings'] = settings
+        cfg['discrete inputs'] = 'each binomial draw is a solver-chosen member of {0, 1}; report figures are a function of the simulated input text'
     log = harness.UnitLog(cfg)
     zv = {}
 
@@ -537,7 +554,7 @@ def run_unit(unit):
     world = lambda inp: (True, {'note': 'fact about the real main() running in the in-memory world'})
     header = ', '.join(outs) + ', ' + ', '.join(s[0] for s in settings) + '\n'
     n = 0
-    for pr in core.explore(lambda: run_main(K, W, [list(s) for s in settings], code, lo, unit.get('cpus'), unit.get('may_fail'), outputs=unit.get('outputs')), max_paths=300000):
+    for pr in core.explore(lambda: run_main(K, W, [list(s) for s in settings], code, lo, unit.get('cpus'), unit.get('may_fail'), outputs=unit.get('outputs'), discrete=bool(unit.get('discrete'))), max_paths=300000):
         log.path(pr)
         n += 1
         if pr.error is not None:
@@ -557,13 +574,16 @@ def run_unit(unit):
         ok_rows = sum(1 for o in attempted if not (o['raised'] or o['failed']) and o.get('lock_acquired', True))
         body = r['file'][len(header):] if r['file'].startswith(header) else ''
         if not lo:
-            harness.discharge(log, c, 'main(): the results file holds exactly one row per successfully simulated iteration', body.count('\n') == ok_rows and len(attempted) == K, zv, concrete_rows)
+            harness.discharge(log, c, 'main(): the results file holds exactly one row per successfully simulated iteration', body.count('\n') == ok_rows and len(attempted) == K, zv,
+                              (lambda inp: replay_discrete_rows()) if unit.get('discrete') else concrete_rows)
         # every row has one value per OUTPUT column the header announces (the header is taken as the file holds it)
         hdr_line = r['file'].split('\n', 1)[0]
         n_out = len([x for x in hdr_line.split(',')]) - len(settings)
         rows_ok = all(len([f for f in ln.partition('(')[0].strip().strip(',').split(',') if f.strip()]) == n_out for ln in body.split('\n') if ln.strip())
         harness.discharge(log, c, 'main(): every row holds one value per OUTPUT column of the header line', rows_ok, zv,
                           (lambda inp: replay_duplicate_outputs()) if unit.get('outputs') else world)
+        if unit.get('discrete'):
+            continue      # (the per-iteration sampling obligations speak of symbolic variates; here the draws are concrete numbers)
         c13.check_obs(log, c, obs, settings, zv, concrete_dups, concrete_dups, first=(n == 1),
                       row_finding=('C13-row-lost-when-lock-not-granted', lambda inp: replay_lock_timeout()))
         if n % 400 == 0:
